@@ -135,7 +135,7 @@ Lemma search_sound_l : forall p ops q k ef,
 Proof.
   intros p ops q k ef Hwf Hc Hk.
   assert (Hcl : any_inactive (ix (run0 p ops)) = false).
-  { unfold class_of in Hc. destruct (entry_dead _); [discriminate|]. destruct (any_inactive _); [discriminate | auto]. }
+  { unfold class_of in Hc. destruct (HALF_PAGE <? page_use _); [discriminate|]. destruct (entry_dead _); [discriminate|]. destruct (any_inactive _); [discriminate | auto]. }
   pose proof (search_sound_inv0 p (run0 p ops) q k ef (inv0_reached p ops Hwf Hcl) Hk) as H.
   destruct (search _ _ _ _ _ _); auto. destruct H as (A & B & C & D & _). auto.
 Qed.
@@ -147,7 +147,7 @@ Lemma search_nonempty_l : forall p ops q k ef l,
 Proof.
   intros p ops q k ef l Hwf Hc Ht Hk Hef Hs.
   assert (Hcl : any_inactive (ix (run0 p ops)) = false).
-  { unfold class_of in Hc. destruct (entry_dead _); [discriminate|]. destruct (any_inactive _); [discriminate | auto]. }
+  { unfold class_of in Hc. destruct (HALF_PAGE <? page_use _); [discriminate|]. destruct (entry_dead _); [discriminate|]. destruct (any_inactive _); [discriminate | auto]. }
   pose proof (search_sound_inv0 p (run0 p ops) q k ef (inv0_reached p ops Hwf Hcl) ltac:(lia)) as H.
   rewrite Hs in H. destruct H as (_ & _ & _ & _ & E). auto.
 Qed.
@@ -160,7 +160,7 @@ Lemma insert_ok_l : forall p ops row v lvl blind,
 Proof.
   intros p ops row v lvl blind Hwf Hc Hd.
   assert (Hcl : any_inactive (ix (run0 p ops)) = false).
-  { unfold class_of in Hc. destruct (entry_dead _); [discriminate|]. destruct (any_inactive _); [discriminate | auto]. }
+  { unfold class_of in Hc. destruct (HALF_PAGE <? page_use _); [discriminate|]. destruct (entry_dead _); [discriminate|]. destruct (any_inactive _); [discriminate | auto]. }
   assert (Hsplit : forall ops1 w o, wf_ops p w (ops1 ++ [o]) = true ->
             wf_ops p w ops1 = true /\ op_wf (fst (run p w ops1)) o = true).
   { induction ops1 as [|o1 t IH]; intros w o H; cbn [app wf_ops run] in *.
